@@ -34,7 +34,7 @@ E(n) ==
        \cup UNION {{[k |-> kk, l |-> x, r |-> y] : kk \in {"list2", "tuple2"}, x \in E(i), y \in E(n - 1 - i)} : i \in 0..(n - 1)}
        \cup {[k |-> "list1", e |-> x] : x \in E(n - 1)}
        \cup {[k |-> "dict1", e |-> x] : x \in E(n - 1)}     \* keys of a dict literal are string literals in py_gram
-       \cup {[k |-> "lambda", e |-> x] : x \in E(n - 1)}
+       \cup {[k |-> kk, e |-> x] : kk \in {"lambda", "lambda0", "lambda2"}, x \in E(n - 1)}
        \cup {[k |-> "walrus", e |-> x] : x \in E(n - 1)}
        \* comparison chain: two operators, three operands (its own family)
        \cup (IF n >= 2 THEN {[k |-> "chain", op1 |-> o1, op2 |-> o2, a |-> Leaf, b |-> Leaf, c |-> Leaf] : o1 \in {"<", "=="}, o2 \in {"<=", "!="}} ELSE {})
@@ -55,7 +55,7 @@ Label(x, i) ==
   CASE x.k = "leaf" -> [e |-> LeafNode(i), n |-> i + 1]
     [] x.k \in {"bool", "cmp", "bin", "list2", "tuple2"} ->
          (LET L == Label(x.l, i)  R == Label(x.r, L.n) IN [e |-> [x EXCEPT !.l = L.e, !.r = R.e], n |-> R.n])
-    [] x.k \in {"not", "neg", "attr", "call0", "list1", "dict1", "lambda", "walrus"} ->
+    [] x.k \in {"not", "neg", "attr", "call0", "list1", "dict1", "lambda", "lambda0", "lambda2", "walrus"} ->
          (LET X == Label(x.e, i) IN [e |-> [x EXCEPT !.e = X.e], n |-> X.n])
     [] x.k \in {"call1", "callkw", "callstar", "index"} ->
          (LET X == Label(x.e, i)  A == Label(x.a, X.n) IN [e |-> [x EXCEPT !.e = X.e, !.a = A.e], n |-> A.n])
@@ -66,7 +66,7 @@ ExprsFrom(off) == {Label(s, off).e : s \in E(N)}
 Exprs == ExprsFrom(0)
 
 \* levels of py_gram's ladder
-Prec(x) == CASE x.k = "lambda" -> 1 [] x.k = "tern" -> 2
+Prec(x) == CASE x.k \in {"lambda", "lambda0", "lambda2"} -> 1 [] x.k = "tern" -> 2
              [] x.k = "bool" -> (IF x.op = "or" THEN 3 ELSE 4) [] x.k = "not" -> 5
              [] x.k \in {"cmp", "chain"} -> 6
              [] x.k = "bin" -> (IF x.op \in {"+", "-"} THEN 11 ELSE 12)
@@ -97,6 +97,8 @@ Text(x) ==
     [] x.k = "tuple2" -> "(" \o P(x.l, 1) \o ", " \o P(x.r, 1) \o ")"
     [] x.k = "dict1" -> "{'k': " \o P(x.e, 1) \o "}"
     [] x.k = "lambda" -> "lambda p: " \o P(x.e, 2)
+    [] x.k = "lambda0" -> "lambda: " \o P(x.e, 2)
+    [] x.k = "lambda2" -> "lambda p, q: " \o P(x.e, 2)
     [] x.k = "walrus" -> "(w := " \o P(x.e, 3) \o ")"
 
 \* structure as CPython's ast sees it
@@ -120,6 +122,8 @@ Canon(x) ==
     [] x.k = "tuple2" -> <<"tuple", <<Canon(x.l), Canon(x.r)>>>>
     [] x.k = "dict1" -> <<"dict", <<<<<<"str", "k">>, Canon(x.e)>>>>>>
     [] x.k = "lambda" -> <<"lambda", <<"p">>, Canon(x.e)>>
+    [] x.k = "lambda0" -> <<"lambda", <<>>, Canon(x.e)>>
+    [] x.k = "lambda2" -> <<"lambda", <<"p", "q">>, Canon(x.e)>>
     [] x.k = "walrus" -> <<"walrus", "w", Canon(x.e)>>
 
 Emit == \A off \in Offsets : \A x \in ExprsFrom(off) : PrintT("CASE " \o ToJson([text |-> Text(x), canon |-> Canon(x), top |-> x.k, off |-> off]))
